@@ -290,7 +290,7 @@ var (
 	DropShadow        = regexp.MustCompile(`^drop-shadow\(([-]?[0-9]+px) ([-]?[0-9]+px)( [-]?[0-9]+px)?( ([-]?[0-9]+px))?`)
 	Font              = regexp.MustCompile(`^('[a-z \-]+'|[a-z \-]+)$`)
 	Grayscale         = regexp.MustCompile(`^grayscale\(([0-9]{1,2}|100)%\)$`)
-	GridTemplateAreas = regexp.MustCompile(`^['"]?[a-z ]+['"]?$`)
+	GridTemplateAreas = regexp.MustCompile(`^(?:"[a-z ]+"|'[a-z ]+'|[a-z ]+)$`)
 	HexRGB            = regexp.MustCompile(`^#([0-9a-f]{3,4}|[0-9a-f]{6}|[0-9a-f]{8})$`)
 	HSL               = regexp.MustCompile(`^hsl\([ ]*([012]?[0-9]{1,2}|3[0-5][0-9]|360),[ ]*([0-9]{0,2}|100)\%,[ ]*([0-9]{0,2}|100)\%\)$`)
 	HSLA              = regexp.MustCompile(`^hsla\(([ ]*[012]?[0-9]{1,2}|3[0-5][0-9]|360),[ ]*([0-9]{0,2}|100)\%,[ ]*([0-9]{0,2}|100)\%,[ ]*(1|1\.0|0|(0\.[0-9]+))\)$`)
@@ -321,7 +321,7 @@ var (
 	Time              = regexp.MustCompile(`^(?:[0-9]+|[0-9]*\.[0-9]+)(s|ms)?$`)
 	TransitionProp    = regexp.MustCompile(`^([a-zA-Z]+,[ ]?)*[a-zA-Z]+$`)
 	TranslateScale    = regexp.MustCompile(`(translate|translate3d|translatex|translatey|translatez|scale|scale3d|scalex|scaley|scalez)\(`)
-	URL               = regexp.MustCompile(`^url\([\"\']?((https|http)://[a-z0-9\./_:]+[\"\']?)\)$`)
+	URL               = regexp.MustCompile(`^url\((?:"https?://[a-z0-9\./_:]+"|'https?://[a-z0-9\./_:]+'|https?://[a-z0-9\./_:]+)\)$`)
 	ZIndex            = regexp.MustCompile(`^[\-]?[0-9]+$`)
 )
 
